@@ -70,6 +70,9 @@ type Node struct {
 	FailTag  string // if set, only the run with this tag fails
 	// interrupts
 	RerunN int // number of attempts that answer InterruptAndRerun
+	// AnyOut: the node's static output type is `any` (the values are the same maps): successors
+	// typed map[string]any get the framework's runtime type check on the edge / before the branch
+	AnyOut bool
 }
 
 type Edge struct {
@@ -101,6 +104,7 @@ type Plan struct {
 	Static              map[string]string // workflow static values: node -> value
 	IntBefore, IntAfter []string
 	Depth               int
+	AnyOut              bool // nested plan built as Graph[map, any]
 }
 
 func (p *Plan) node(k string) *Node {
@@ -767,6 +771,9 @@ func (p *Plan) Render() string {
 		if n.OutKey != "" {
 			sb.WriteString(">" + n.OutKey)
 		}
+		if n.AnyOut {
+			sb.WriteString(" :any")
+		}
 		if n.Pre != 0 {
 			fmt.Fprintf(&sb, " pre%d", n.Pre)
 		}
@@ -841,4 +848,133 @@ func (p *Plan) allKeys() map[string]bool {
 		}
 	}
 	return out
+}
+
+// decorateAnyTypes gives some lambda nodes and nested (non-workflow) graphs the static output
+// type `any`. The values do not change, so the reference model is unaffected. Unless
+// allowFanIn is set, an any-typed output never takes part in a fan-in (the framework merges
+// fan-in values by their static stream chunk type, see DESIGN.md section 10).
+func decorateAnyTypes(t *kernel.Tape, p *Plan, pct int, allowFanIn bool) int {
+	n := 0
+	for _, nd := range p.Nodes {
+		switch nd.Kind {
+		case KLambda:
+			if t.PlanBool(pct) && (allowFanIn || !p.feedsFanIn(nd.Key, 0)) && !p.fieldMapped(nd.Key) {
+				nd.AnyOut = true
+				nd.Post = HNone // (a post-handler would have to be typed any as well)
+				n++
+			}
+		case KSub:
+			n += decorateAnyTypes(t, nd.Sub, pct, allowFanIn)
+			if !nd.Sub.fieldMapped2End() && (nd.Sub.Mode != ModeWorkflow || nd.Sub.dataInDegree("end") >= 1) && t.PlanBool(pct) && (allowFanIn || (!p.feedsFanIn(nd.Key, 0) && nd.Sub.dataInDegree("end") <= 1)) && !p.fieldMapped(nd.Key) {
+				nd.AnyOut, nd.Sub.AnyOut = true, true
+				nd.Post = HNone
+				n++
+			}
+		}
+	}
+	return n
+}
+
+// fieldMapped: a workflow successor maps fields of this node's output (the library refuses
+// that at build time for an output whose static type is not a struct or map).
+func (p *Plan) fieldMapped(key string) bool {
+	if p.Mode != ModeWorkflow {
+		return false
+	}
+	for _, e := range p.Edges {
+		if e.From == key && e.Data && e.Map != MapWhole {
+			return true
+		}
+	}
+	return false
+}
+
+// fieldMapped2End: a workflow whose END input is put together from fields (its output type
+// must then be a struct or map).
+func (p *Plan) fieldMapped2End() bool {
+	if p.Mode != ModeWorkflow {
+		return false
+	}
+	for _, e := range p.Edges {
+		if e.To == "end" && e.Data && e.Map != MapWhole {
+			return true
+		}
+	}
+	return false
+}
+
+// dataInDegree counts the data sources of a node (edges and branch targets).
+func (p *Plan) dataInDegree(target string) int {
+	k := 0
+	for _, e := range p.Edges {
+		if e.To == target && (p.Mode != ModeWorkflow || e.Data) {
+			k++
+		}
+	}
+	for _, b := range p.Branches {
+		if !b.Data {
+			continue
+		}
+		for _, x := range b.Targets {
+			if x == target {
+				k++
+			}
+		}
+	}
+	return k
+}
+
+// feedsFanIn: the output of node key reaches, directly or through pass-through nodes (which
+// take over its static type), a node with more than one data source.
+func (p *Plan) feedsFanIn(key string, depth int) bool {
+	if depth > len(p.Nodes) {
+		return true
+	}
+	var targets []string
+	for _, e := range p.Edges {
+		if e.From == key && (p.Mode != ModeWorkflow || (e.Data && e.Map == MapWhole)) {
+			targets = append(targets, e.To)
+		}
+	}
+	for _, b := range p.Branches {
+		if b.From == key && b.Data {
+			targets = append(targets, b.Targets...)
+		}
+	}
+	for _, x := range targets {
+		if p.dataInDegree(x) > 1 {
+			return true
+		}
+		if nd := p.node(x); nd != nil && nd.Kind == KPass && p.feedsFanIn(x, depth+1) {
+			return true
+		}
+	}
+	return false
+}
+
+func hasAnyTypes(p *Plan) bool {
+	for _, nd := range p.Nodes {
+		if nd.AnyOut || (nd.Kind == KSub && hasAnyTypes(nd.Sub)) {
+			return true
+		}
+	}
+	return false
+}
+
+// maybeAnyTypes: in one plan out of four some outputs are statically typed any.
+func maybeAnyTypes(t *kernel.Tape, p *Plan) {
+	if t.PlanBool(25) {
+		decorateAnyTypes(t, p, 25, false)
+	}
+}
+
+func clearAnyTypes(p *Plan) {
+	p.AnyOut = false
+	for _, nd := range p.Nodes {
+		nd.AnyOut = false
+		if nd.Kind == KSub {
+			clearAnyTypes(nd.Sub)
+		}
+	}
 }
